@@ -5,6 +5,7 @@ package lint
 
 import (
 	"fmt"
+	"go/token"
 	"go/types"
 	"strconv"
 	"strings"
@@ -548,7 +549,123 @@ func ruleStateAtomic() *Rule {
 			}
 			checkAtomicReplace(p, obs, atomicSpec{rule: "STATE-ATOMIC", root: "(*persistentStateStorage).SetState", dirField: dir, targetBase: base, what: "state"})
 			encodedFromParams(p, obs, "(*persistentStateStorage).SetState", "encodePersistentState", map[string]string{"term": "term", "votedFor": "votedFor"})
+			stateCacheCoherent(p, obs)
 			return obs.list()
 		},
 	}
+}
+
+
+// stateCacheCoherent: State() answers from persistentStateStorage.state whenever that field is set and reads the file
+// only when it is not. What SetState wrote is therefore what State() returns only if every successful SetState leaves
+// the field describing its own arguments (or clears it). restore() reads State() on every Start/Restart of the same
+// node object: a stale cache takes the node's term and vote back to what the storage object loaded first.
+func stateCacheCoherent(p *Program, obs *obSet) {
+	const setName, getName = "(*persistentStateStorage).SetState", "(*persistentStateStorage).State"
+	key := "a successful " + setName + " leaves the cached state equal to what it wrote"
+	set, get := p.Func(setName), p.Func(getName)
+	fld := p.Field("persistentStateStorage.state")
+	if set == nil || get == nil {
+		obs.lost(setName + " / " + getName)
+		return
+	}
+	if fld == nil {
+		obs.ok(key, p.Pos(set.Pos()), "the storage keeps no cached state")
+		return
+	}
+	reads := false
+	for _, b := range get.Blocks {
+		for _, in := range b.Instrs {
+			if u, ok := in.(*ssa.UnOp); ok && u.Op == token.MUL {
+				if fa, ok := u.X.(*ssa.FieldAddr); ok && fieldOf(fa.X.Type(), fa.Field) == fld {
+					reads = true
+				}
+			}
+		}
+	}
+	if !reads {
+		obs.ok(key, p.Pos(set.Pos()), "State() does not answer from the cached field")
+		return
+	}
+	params := map[ssa.Value]string{}
+	for _, par := range set.Params {
+		params[par] = par.Name()
+	}
+	// stores to the cache in SetState and what they store
+	type cst struct {
+		st   *ssa.Store
+		good bool
+		why  string
+	}
+	var stores []cst
+	for _, b := range set.Blocks {
+		for _, in := range b.Instrs {
+			st, f := storeField(in)
+			if st == nil || f != fld {
+				continue
+			}
+			c := cst{st: st}
+			switch v := st.Val.(type) {
+			case *ssa.Const:
+				c.good = v.Value == nil // cleared: State() reads the file again
+				c.why = "cleared"
+			case *ssa.Alloc:
+				got := map[string]string{}
+				if refs := v.Referrers(); refs != nil {
+					for _, r := range *refs {
+						fa, ok := r.(*ssa.FieldAddr)
+						if !ok || fa.Referrers() == nil {
+							continue
+						}
+						name := fieldOf(fa.X.Type(), fa.Field).Name()
+						for _, rr := range *fa.Referrers() {
+							if fs, ok := rr.(*ssa.Store); ok && fs.Addr == ssa.Value(fa) {
+								if n, ok := params[fs.Val]; ok && got[name] == "" {
+									got[name] = n
+								} else {
+									got[name] = "?"
+								}
+							}
+						}
+					}
+				}
+				c.good = got["term"] == "term" && got["votedFor"] == "votedFor"
+				c.why = fmt.Sprintf("term from %q, votedFor from %q", got["term"], got["votedFor"])
+			default:
+				c.why = "value " + st.Val.String() + " not recognised"
+			}
+			stores = append(stores, c)
+		}
+	}
+	n := 0
+	for _, b := range set.Blocks {
+		ret, ok := b.Instrs[len(b.Instrs)-1].(*ssa.Return)
+		if !ok {
+			continue
+		}
+		if succ, known := successReturn(ret); !known || !succ {
+			continue
+		}
+		n++
+		var last *cst
+		for i := range stores {
+			if instrBlockDominates(stores[i].st, ret) && (last == nil || instrBlockDominates(last.st, stores[i].st)) {
+				last = &stores[i]
+			}
+		}
+		switch {
+		case last == nil:
+			obs.fail(key, p.InstrPos(ret), "SetState returns nil without having assigned the cached state, and State() answers from the cache once it is set: after the first State() of this storage object every later SetState reaches the disk only, "+
+				"so a Stop/Restart of the same node (restore() reads State()) takes term and vote back to the values loaded first — the term decreases and a second vote can be cast in a term already voted in", nil)
+			return
+		case !last.good:
+			obs.fail(key, p.InstrPos(last.st), "the cached state assigned before the successful return is not built from this call's term and votedFor ("+last.why+")", nil)
+			return
+		}
+	}
+	if n == 0 {
+		obs.undecided(key, p.Pos(set.Pos()), "no successful return found")
+		return
+	}
+	obs.ok(key, p.Pos(set.Pos()), "every successful return is dominated by a store of the arguments (or nil) into the cached state that State() answers from")
 }
